@@ -77,6 +77,22 @@ def check_thresholds(ctx: Ctx):
     # the mask comparison names the effective threshold; its value per requested rule is read off the paths
     # that reach the comparison (truth table over the five kinds of request), whatever the dispatch is spelled like
     masks = [c for c in fv.calls() if (fv.callee(c) or "").endswith("ScalarField") and len(c.args) >= 2]
+    # the binary image is the comparison alone: a mask combined with further element-wise conditions on the field's values
+    # (`& ~np.isclose(data, threshold)`, `& (data < cap)`) is another image — with an absolute tolerance it is not even invariant under rescaling
+    for c_ in masks:
+        mx_ = fv.expand(c_.args[1], c_, stop=(field, "threshold"), allow_mutated=True, depth=3)
+        if isinstance(mx_, ast.Name):
+            # built up over several statements (`above = data > t; above &= …`): the value on the path to the call
+            try:
+                vc_ = value_cases(fv, stmt_index(fv).statement(c_), mx_, stop=(field, "threshold"))
+                if len(vc_) >= 1:
+                    mx_ = vc_[0][1]
+            except Exception:  # noqa: BLE001
+                pass
+        if isinstance(mx_, ast.BinOp) and isinstance(mx_.op, (ast.BitAnd, ast.BitOr, ast.BitXor)) and any(isinstance(x_, ast.Compare) and data in U(x_) for x_ in ast.walk(mx_)):
+            ctx.violate("GUARDSHAPE", f"{site}:mask", (fi, c_), f"the binary image is `{U(mx_)[:90]}`: the comparison with the threshold is combined with another condition on the field's values, so the "
+                        "located droplets are not those of the image of cells exceeding the threshold (cells within a tolerance of the threshold are dropped; with an absolute tolerance a rescaled "
+                        "image loses all its droplets)")
     masks = [c for c in masks if isinstance(fv.expand(c.args[1], c, stop=(field, "threshold"), allow_mutated=True, depth=2), ast.Compare)]
     top = None
     br = {}
@@ -522,6 +538,9 @@ def check(ctx: Ctx):
     from ..rules import support as _sup_r11
 
     _sup_r11.check_params_not_rebound(ctx, "droplets.image_analysis.refine_droplets", ("phase_field", "candidates", "kwargs"))
+    from ..rules import support as _sup_r12b
+
+    _sup_r12b.check_param_not_written(ctx, "droplets.image_analysis.threshold_otsu", "data")
     ctx.expect("STATELESS", 1)
     ctx.expect("LATEBIND", 1)
     ctx.expect("THRESH", 9)
